@@ -61,6 +61,59 @@ Proof.
   destruct (n =? 0) eqn:E; cbn [lenN]; [lia|]. rewrite IH. lia.
 Qed.
 
+
+Lemma lenN_removelast {A} (l : list A) : lenN (removelast l) = lenN l - 1.
+Proof.
+  induction l as [|x l IH]; [reflexivity|]. destruct l as [|y l]; [reflexivity|].
+  change (removelast (x :: y :: l)) with (x :: removelast (y :: l)). cbn [lenN] in *. rewrite IH. lia.
+Qed.
+
+Lemma lenN_setN i v l : lenN (setN i v l) = lenN l.
+Proof.
+  revert i. induction l as [|x l IH]; intros i; cbn [setN]; [reflexivity|].
+  destruct (i =? 0); cbn [lenN]; [reflexivity|]. rewrite IH. reflexivity.
+Qed.
+
+(* ================= C strings ================= *)
+Definition nz (c : N) : bool := negb (c =? 0).
+
+Lemma cstr_nz s : forallb nz (cstr s) = true.
+Proof. unfold cstr. apply (span_all nz s). Qed.
+
+Lemma cstr_id s : forallb nz s = true -> cstr s = s.
+Proof.
+  unfold cstr, nz. induction s as [|c r IH]; intros H; [reflexivity|].
+  cbn [forallb] in H. apply andb_prop in H as [Hc Hr].
+  cbn [span]. rewrite Hc. specialize (IH Hr).
+  destruct (span (fun c0 : N => negb (c0 =? 0)) r) as [a b] eqn:E. cbn [fst] in *. rewrite IH. reflexivity.
+Qed.
+
+Lemma forallb_app' {A} (p : A -> bool) a b : forallb p (a ++ b) = forallb p a && forallb p b.
+Proof. induction a as [|x a IH]; cbn [app forallb]; [reflexivity|]. rewrite IH, andb_assoc. reflexivity. Qed.
+
+Lemma join_dots_nz labels : Forall (fun t => forallb nz t = true) labels -> forallb nz (join_dots labels) = true.
+Proof.
+  induction 1 as [|l r Hl Hr IH]; [reflexivity|].
+  destruct r as [|l2 r]; [exact Hl|].
+  change (join_dots (l :: l2 :: r)) with (l ++ [46] ++ join_dots (l2 :: r)).
+  rewrite !forallb_app', Hl, IH. reflexivity.
+Qed.
+
+
+Definition labels_nz (labels : list bytes) : Prop := Forall (fun l => forallb nz l = true) labels.
+
+Lemma cstr_fix_nz s : cstr s = s -> forallb nz s = true.
+Proof. intros H. rewrite <- H. apply cstr_nz. Qed.
+
+Lemma join_dots_nz_inv labels : forallb nz (join_dots labels) = true -> labels_nz labels.
+Proof.
+  induction labels as [|l r IH]; intros H; [constructor|].
+  destruct r as [|l2 r]; [constructor; [exact H|constructor]|].
+  change (join_dots (l :: l2 :: r)) with (l ++ [46] ++ join_dots (l2 :: r)) in H.
+  rewrite !forallb_app' in H. apply andb_prop in H as [H1 H2]. apply andb_prop in H2 as [_ H3].
+  constructor; [exact H1|]. apply IH. exact H3.
+Qed.
+
 (* ================= checked reads succeed inside the datagram ================= *)
 Lemma rd16_some buf off : off + 2 <= lenN buf -> exists v, rd16 buf off = Some v.
 Proof.
@@ -92,19 +145,28 @@ Definition name_res_ok (sz : N) (r : outcome (bytes * N * N)) : Prop :=
   | Ok (_, off', _) => off' <= sz
   end.
 
+(* ... and the destination holds at least what was there before (minus the dot a finishing activation turns into NUL) *)
+Definition name_res_ok2 (sz : N) (acc : bytes) (no : N) (r : outcome (bytes * N * N)) : Prop :=
+  match r with
+  | Bad _ => False
+  | Err => True
+  | Ok (nm, off', _) => off' <= sz /\ lenN acc <= lenN nm + (if no =? 0 then 0 else 1)
+  end.
+
 Lemma name_finish_safe acc no ns cap off rdl sz :
-  no <= ns -> ns <= cap -> 0 < ns -> off <= sz -> name_res_ok sz (name_finish acc no ns cap off rdl).
+  no <= ns -> ns <= cap -> 0 < ns -> off <= sz -> name_res_ok2 sz acc no (name_finish acc no ns cap off rdl).
 Proof.
   intros H1 H2 H3 H4. unfold name_finish.
   destruct (no =? 0) eqn:E0.
-  - destruct (cap =? 0) eqn:E1; [lia|]. exact H4.
-  - destruct (cap <? no) eqn:E1; [lia|]. destruct (ns <? no) eqn:E2; [lia|]. exact H4.
+  - destruct (cap =? 0) eqn:E1; [lia|]. cbn [name_res_ok2]. rewrite E0. lia.
+  - destruct (cap <? no) eqn:E1; [lia|]. destruct (ns <? no) eqn:E2; [lia|].
+    cbn [name_res_ok2]. rewrite E0, lenN_removelast. lia.
 Qed.
 
-Lemma name_loop_safe : forall fuel buf off rdl acc no ns cap rdepth,
+Lemma name_loop_safe2 : forall fuel buf off rdl acc no ns cap rdepth,
   no < ns -> ns <= cap ->
   (ns - no) + (66 - rdepth) < N.of_nat fuel ->
-  name_res_ok (lenN buf) (name_loop fuel buf (lenN buf) off rdl acc no ns cap rdepth).
+  name_res_ok2 (lenN buf) acc no (name_loop fuel buf (lenN buf) off rdl acc no ns cap rdepth).
 Proof.
   induction fuel as [|f IH]; intros buf off rdl acc no ns cap rdepth Hno Hcap Hfuel; [lia|].
   cbn [name_loop].
@@ -125,7 +187,15 @@ Proof.
     assert (H2 : (ns - no - 0) + (66 - (rdepth + 1)) < N.of_nat f) by lia.
     specialize (IH H0 H1 H2).
     destruct (name_loop f buf (lenN buf) (s mod 16384) rdl acc 0 (ns - no) (cap - no) (rdepth + 1)) as [[[nm o'] r']| |b];
-      cbn [name_res_ok] in *; [lia|exact I|exact IH].
+      cbn [name_res_ok2] in *; [|exact I|exact IH].
+    destruct IH as [_ IHlen]. change (0 =? 0) with true in IHlen. cbv iota in IHlen.
+    destruct (0 <? no) eqn:Eno.
+    + destruct (cap <=? no) eqn:E4; [lia|].
+      destruct (nthN_some (nm ++ [0]) (lenN acc)) as [b0 Hb0]; [rewrite lenN_app; cbn [lenN]; lia|].
+      rewrite Hb0. destruct (no =? 0) eqn:En0; [lia|].
+      destruct (b0 =? 0); cbn [name_res_ok2]; rewrite En0; [|lia].
+      destruct (lenN nm =? lenN acc); [rewrite lenN_removelast|rewrite lenN_setN]; lia.
+    + cbn [name_res_ok2]. destruct (no =? 0); lia.
   - unfold dns_MAXLABELSZ.
     destruct (63 <? c) eqn:Elab; [exact I|].
     destruct (c =? 0) eqn:Ec0.
@@ -135,10 +205,24 @@ Proof.
       destruct (lenN buf <=? off + 1 + c) eqn:E3; [exact I|].
       destruct (rd_range_some buf (off + 1) c) as [lbl Hl]; [lia|]. rewrite Hl.
       destruct (cap <? no + c + 1) eqn:E4; [lia|].
+      assert (Hacc : lenN acc + 1 <= lenN (acc ++ lbl ++ [46])) by (rewrite !lenN_app; cbn [lenN]; lia).
+      assert (Hweak : forall r, name_res_ok2 (lenN buf) (acc ++ lbl ++ [46]) (no + c + 1) r -> name_res_ok2 (lenN buf) acc no r).
+      { intros [[[nm o'] r']| |b]; cbn [name_res_ok2]; try tauto.
+        destruct (no + c + 1 =? 0) eqn:E9; [lia|]. destruct (no =? 0); lia. }
+      apply Hweak.
       destruct (no + c + 1 <? ns) eqn:E5.
       * apply IH; lia.
       * apply name_finish_safe; lia.
 Qed.
+
+Lemma name_res_ok2_weaken sz acc no r : name_res_ok2 sz acc no r -> name_res_ok sz r.
+Proof. destruct r as [[[nm o'] r']| |b]; cbn [name_res_ok2 name_res_ok]; tauto. Qed.
+
+Lemma name_loop_safe : forall fuel buf off rdl acc no ns cap rdepth,
+  no < ns -> ns <= cap ->
+  (ns - no) + (66 - rdepth) < N.of_nat fuel ->
+  name_res_ok (lenN buf) (name_loop fuel buf (lenN buf) off rdl acc no ns cap rdepth).
+Proof. intros. eapply name_res_ok2_weaken. apply name_loop_safe2; assumption. Qed.
 
 Lemma name_unpack_safe buf off ns cap rdepth :
   0 < ns -> ns <= cap -> name_res_ok (lenN buf) (name_unpack buf (lenN buf) off ns cap rdepth).
@@ -254,24 +338,20 @@ Qed.
 (* ================= Part B: names laid out in a datagram decode to their labels ================= *)
 (* Specification vocabulary (independent of the decoder): `name_at buf d off labels e` — the datagram holds at
    offset `off` an RFC 1035 encoding of the name `labels`: labels stored in line, ended either by the root label or
-   by a compression pointer to an offset where the REST of the name is encoded (at most `d` pointers in a row are
-   followed); `e` is the offset behind the part stored in line. A pointer's target must denote at least one label
-   (see C37_name_ptr_to_root_refuted for what happens otherwise). *)
-Inductive name_at_gen (strict : bool) (buf : bytes) : nat -> N -> list bytes -> N -> Prop :=
-| na_root : forall d off, nthN off buf = Some 0 -> name_at_gen strict buf d off [] (off + 1)
+   by a compression pointer to an offset where the REST of the name (possibly nothing but the root label) is encoded;
+   at most `d` pointers in a row are followed; `e` is the offset behind the part stored in line. *)
+Inductive name_at (buf : bytes) : nat -> N -> list bytes -> N -> Prop :=
+| na_root : forall d off, nthN off buf = Some 0 -> name_at buf d off [] (off + 1)
 | na_label : forall d off l rest e,
     1 <= lenN l -> lenN l <= 63 ->
     nthN off buf = Some (lenN l) ->
     rd_range buf (off + 1) (lenN l) = Some l ->
-    name_at_gen strict buf d (off + 1 + lenN l) rest e ->
-    name_at_gen strict buf d off (l :: rest) e
+    name_at buf d (off + 1 + lenN l) rest e ->
+    name_at buf d off (l :: rest) e
 | na_ptr : forall d off a b labels e',
     nthN off buf = Some a -> 191 < a -> nthN (off + 1) buf = Some b ->
-    (strict = true -> labels <> []) ->
-    name_at_gen strict buf d ((a * 256 + b) mod 16384) labels e' ->
-    name_at_gen strict buf (S d) off labels (off + 2).
-(* strict = false is the plain RFC 1035 reading, in which a pointer may also lead to the root label *)
-Definition name_at := name_at_gen true.
+    name_at buf d ((a * 256 + b) mod 16384) labels e' ->
+    name_at buf (S d) off labels (off + 2).
 
 (* octets the labels occupy in a name buffer / on the wire without the root: sum of (length + 1) *)
 Fixpoint wire (labels : list bytes) : N :=
@@ -280,11 +360,12 @@ Fixpoint wire (labels : list bytes) : N :=
 Fixpoint dotted (labels : list bytes) : bytes :=
   match labels with [] => [] | l :: r => l ++ [46] ++ dotted r end.
 
-Lemma name_at_start st buf d off labels e : name_at_gen st buf d off labels e -> off < lenN buf.
+Lemma name_at_start buf d off labels e : name_at buf d off labels e -> off < lenN buf.
 Proof. intros H. destruct H; eapply nthN_in_range; eassumption. Qed.
 
-Lemma removelast_app_dot (a : bytes) : removelast (a ++ [46]) = a.
-Proof. apply removelast_last. Qed.
+Lemma name_at_labels_nonempty buf d off labels e :
+  name_at buf d off labels e -> Forall (fun l => 1 <= lenN l) labels.
+Proof. induction 1; [constructor|constructor; assumption|assumption]. Qed.
 
 Lemma removelast_dotted acc l r : removelast (acc ++ dotted (l :: r)) = acc ++ join_dots (l :: r).
 Proof.
@@ -303,9 +384,13 @@ Definition name_result (acc : bytes) (no : N) (labels : list bytes) : bytes :=
   | _ => removelast (acc ++ dotted labels)
   end.
 
+Lemma nthN_mid {A} (a : list A) x b : nthN (lenN a) (a ++ x :: b) = Some x.
+Proof. rewrite nthN_app_r by lia. rewrite N.sub_diag. reflexivity. Qed.
+
 Lemma name_loop_decodes : forall buf d off labels e,
   name_at buf d off labels e ->
   forall fuel rdl acc no ns cap rdepth,
+    labels_nz labels ->
     no + wire labels < ns -> ns <= cap ->
     N.of_nat d + rdepth <= 65 ->
     rdl + wire labels < 65536 ->
@@ -313,9 +398,9 @@ Lemma name_loop_decodes : forall buf d off labels e,
     name_loop fuel buf (lenN buf) off rdl acc no ns cap rdepth =
     Ok (name_result acc no labels, e, rdl + wire labels).
 Proof.
-  intros buf d off labels e H. unfold name_at in H.
-  induction H as [d off Hc | d off l rest e Hl1 Hl2 Hc Hr Hrest IH | d off a b labels e' Ha Hgt Hb Hne Htgt IH];
-    intros fuel rdl acc no ns cap rdepth Hfit Hcap Hdepth Hrdl Hfuel;
+  intros buf d off labels e H.
+  induction H as [d off Hc | d off l rest e Hl1 Hl2 Hc Hr Hrest IH | d off a b labels e' Ha Hgt Hb Htgt IH];
+    intros fuel rdl acc no ns cap rdepth Hnz Hfit Hcap Hdepth Hrdl Hfuel;
     (destruct fuel as [|f]; [lia|]); cbn [name_loop].
   - (* root label *)
     pose proof (nthN_in_range _ _ _ Hc) as Hin.
@@ -330,7 +415,8 @@ Proof.
     + destruct (cap <? no) eqn:Ec; [lia|]. destruct (ns <? no) eqn:Ec2; [lia|]. repeat f_equal; lia.
   - (* a label *)
     pose proof (nthN_in_range _ _ _ Hc) as Hin.
-    pose proof (name_at_start _ _ _ _ _ _ Hrest) as Hnext.
+    pose proof (name_at_start _ _ _ _ _ Hrest) as Hnext.
+    inversion Hnz as [|? ? Hnzl Hnzr]; subst.
     destruct (lenN buf <=? off) eqn:E0; [lia|]. rewrite Hc.
     cbn [wire] in *.
     destruct (191 <? lenN l) eqn:E1; [lia|].
@@ -344,7 +430,7 @@ Proof.
     destruct (no + lenN l + 1 <? ns) eqn:E8; [|lia].
     assert (Hm : (rdl + lenN l + 1) mod 65536 = rdl + lenN l + 1) by (apply N.mod_small; lia).
     rewrite Hm.
-    rewrite (IH f (rdl + lenN l + 1) (acc ++ l ++ [46]) (no + lenN l + 1) ns cap rdepth) by lia.
+    rewrite (IH f (rdl + lenN l + 1) (acc ++ l ++ [46]) (no + lenN l + 1) ns cap rdepth) by (try assumption; lia).
     f_equal. f_equal; [|lia]. f_equal.
     unfold name_result.
     destruct (no + lenN l + 1 =? 0) eqn:E9; [lia|].
@@ -354,8 +440,8 @@ Proof.
       rewrite !app_assoc. reflexivity.
   - (* a compression pointer *)
     pose proof (nthN_in_range _ _ _ Hb) as Hin.
-    pose proof (name_at_start _ _ _ _ _ _ Htgt) as Hp.
-    specialize (Hne eq_refl).
+    pose proof (name_at_start _ _ _ _ _ Htgt) as Hp.
+    pose proof (name_at_labels_nonempty _ _ _ _ _ Htgt) as Hne.
     destruct (lenN buf <=? off) eqn:E0; [lia|]. rewrite Ha.
     destruct (191 <? a) eqn:Eg; [|lia].
     destruct (64 <? rdepth) eqn:E1; [lia|].
@@ -366,39 +452,48 @@ Proof.
     destruct (ns <? no) eqn:E4; [lia|].
     destruct (cap <? no) eqn:E5; [lia|].
     destruct (ns - no =? 0) eqn:E6; [lia|].
-    rewrite (IH f rdl acc 0 (ns - no) (cap - no) (rdepth + 1)) by lia.
-    f_equal. f_equal. f_equal.
-    unfold name_result. destruct labels; [contradiction|reflexivity].
+    rewrite (IH f rdl acc 0 (ns - no) (cap - no) (rdepth + 1)) by (try assumption; lia).
+    destruct (0 <? no) eqn:Eno.
+    + (* the fix-up after the recursive call *)
+      destruct (cap <=? no) eqn:E7; [lia|].
+      destruct (no =? 0) eqn:En0; [lia|].
+      destruct labels as [|l r].
+      * (* the pointer led to the root label: the dot behind our last label goes *)
+        cbn [name_result]. change (0 =? 0) with true. cbv iota.
+        rewrite nthN_mid. change (0 =? 0) with true. cbv iota.
+        rewrite N.eqb_refl. rewrite En0. reflexivity.
+      * inversion Hne as [|? ? Hl1 _]; subst. inversion Hnz as [|? ? Hnzl _]; subst.
+        destruct l as [|x l']; [cbn [lenN] in Hl1; lia|].
+        cbn [forallb] in Hnzl. apply andb_prop in Hnzl as [Hx _]. unfold nz in Hx.
+        unfold name_result. rewrite (removelast_dotted acc (x :: l') r).
+        destruct (x =? 0) eqn:Ex; [discriminate|].
+        destruct r as [|l2 r']; cbn [join_dots]; rewrite <- ?app_assoc; cbn [app];
+          rewrite nthN_mid, Ex; reflexivity.
+    + assert (no = 0) by lia. subst no.
+      unfold name_result. destruct labels; reflexivity.
 Qed.
 
 Theorem name_unpack_decodes : forall buf d off labels e ns cap,
-  name_at buf d off labels e ->
+  name_at buf d off labels e -> labels_nz labels ->
   (d <= 65)%nat -> wire labels < ns -> ns <= cap -> ns <= 65536 ->
   name_unpack buf (lenN buf) off ns cap 0 = Ok (join_dots labels, e, wire labels).
 Proof.
-  intros buf d off labels e ns cap H Hd Hw Hcap Hns.
+  intros buf d off labels e ns cap H Hnz Hd Hw Hcap Hns.
   unfold name_unpack. destruct (ns =? 0) eqn:E; [lia|].
-  rewrite (name_loop_decodes buf d off labels e H) by (unfold name_fuel; lia).
+  rewrite (name_loop_decodes buf d off labels e H) by (try assumption; unfold name_fuel; lia).
   replace (0 + wire labels) with (wire labels) by lia.
   unfold name_result. destruct labels as [|l r]; [reflexivity|].
   rewrite (removelast_dotted [] l r). reflexivity.
 Qed.
 
-(* the restriction on pointer targets is necessary: labels followed by a pointer to a root label keep their dot *)
-Definition quirk_buf : bytes := [22;246;129;128;0;1;0;0;0;0;0;0; 3;119;119;119;192;4; 0;1;0;1].
+(* regression for the repaired defect: labels followed by a pointer to a root label lose their dot *)
+Definition ptr_root_buf : bytes := [22;246;129;128;0;1;0;0;0;0;0;0; 3;119;119;119;192;4; 0;1;0;1].
 
-Theorem name_ptr_to_root_refuted :
-  exists buf d off labels e,
-    name_at_gen false buf d off labels e /\ (d <= 65)%nat /\ wire labels < 256 /\
-    name_unpack buf (lenN buf) off 256 256 0 = Ok (join_dots labels ++ [46], e, wire labels) /\
-    message_unpack buf = Ok (UAnswers (mkHdr 5878 1 0 0 0 1 1 0 1 0 0 0) (mkQ (join_dots labels ++ [46]) 1 1) []).
+Lemma ptr_root_layout : name_at ptr_root_buf 1 12 [[119;119;119]] 18.
 Proof.
-  exists quirk_buf, 1%nat, 12, [[119;119;119]], 18.
-  split.
-  { apply na_label with (l := [119;119;119]); try (cbn; lia); try reflexivity.
-    apply (na_ptr false quirk_buf 0 16 192 4 [] 5); try reflexivity; [discriminate|].
-    apply (na_root false quirk_buf 0 4). reflexivity. }
-  split; [lia|]. split; [reflexivity|]. split; vm_compute; reflexivity.
+  apply na_label with (l := [119;119;119]); try (cbn; lia); try reflexivity.
+  apply (na_ptr ptr_root_buf 0 16 192 4 [] 5); try reflexivity.
+  apply (na_root ptr_root_buf 0 4). reflexivity.
 Qed.
 
 (* ================= Part C: messages laid out in a datagram decode to what was encoded ================= *)
@@ -442,6 +537,9 @@ Definition msg_at (buf : bytes) (h : header) (q : query) (rrs : list rr) : Prop 
     q_name q = join_dots ql /\ rd16 buf e = Some (q_type q) /\ rd16 buf (e + 2) = Some (q_class q) /\
     (h_rcode h = 0 -> exists eoff, rrs_at buf (e + 4) rrs eoff /\ lenN rrs = h_an h).
 
+Lemma text_ok_nz labels : text_ok labels -> labels_nz labels.
+Proof. intros H. apply join_dots_nz_inv. apply cstr_fix_nz. exact H. Qed.
+
 Lemma hostsz_256 : dns_MAXHOSTNAMESZ = 256. Proof. reflexivity. Qed.
 Lemma qname_256 : dns_sizeof_query_name = 256. Proof. reflexivity. Qed.
 Lemma rrname_256 : dns_sizeof_rr_name = 256. Proof. reflexivity. Qed.
@@ -457,7 +555,7 @@ Lemma rr_unpack_at buf off r off' : rr_at buf off r off' -> rr_unpack buf (lenN 
 Proof.
   intros (d & labels & e & rdlen & Hn & Hd & Hw & Htxt & Hname & Hty & Hcl & Httl & Hrdl & Hoff & Hin & Hrd).
   unfold rr_unpack.
-  rewrite (name_unpack_decodes buf d off labels e dns_MAXHOSTNAMESZ dns_sizeof_rr_name Hn Hd)
+  rewrite (name_unpack_decodes buf d off labels e dns_MAXHOSTNAMESZ dns_sizeof_rr_name Hn (text_ok_nz _ Htxt) Hd)
     by (rewrite ?hostsz_256, ?rrname_256; lia).
   destruct (lenN buf <? e + 10) eqn:E1; [lia|].
   rewrite Hty, Hcl, Httl, Hrdl.
@@ -465,7 +563,7 @@ Proof.
   destruct r as [rn rt rc rtl rl rd]. cbn [rr_name rr_type rr_class rr_ttl rr_rdlength rr_rdata] in *.
   destruct (rt =? dns_TYPE_PTR) eqn:Ety.
   - destruct Hrd as (pd & pl & pe & Hpn & Hpd & Hpw & Hptxt & Hpe & Hrdata & Hrlen).
-    rewrite (name_unpack_decodes buf pd (e + 10) pl pe dns_MAXHOSTNAMESZ dns_MAXHOSTNAMESZ Hpn Hpd)
+    rewrite (name_unpack_decodes buf pd (e + 10) pl pe dns_MAXHOSTNAMESZ dns_MAXHOSTNAMESZ Hpn (text_ok_nz _ Hptxt) Hpd)
       by (rewrite ?hostsz_256; lia).
     destruct (e + 10 + rdlen <? pe) eqn:E3; [lia|].
     unfold text_ok in *. rewrite Htxt, Hptxt. subst. reflexivity.
@@ -529,7 +627,7 @@ Proof.
   unfold message_unpack. rewrite (header_unpack_at _ _ Hh).
   rewrite Hqd. cbn [N.eqb Pos.eqb negb].
   unfold query_unpack.
-  rewrite (name_unpack_decodes buf d 12 ql e dns_MAXHOSTNAMESZ dns_sizeof_query_name Hn Hd)
+  rewrite (name_unpack_decodes buf d 12 ql e dns_MAXHOSTNAMESZ dns_sizeof_query_name Hn (text_ok_nz _ Htxt) Hd)
     by (rewrite ?hostsz_256, ?qname_256; lia).
   pose proof (rd16_in_range _ _ _ Hqc) as Hin.
   destruct (lenN buf <? e + 4) eqn:E1; [lia|].
@@ -674,14 +772,13 @@ Proof.
   { subst o. destruct (rs_compress r) eqn:Ec.
     - destruct (Hcomp eq_refl) as [Heq Hne]. exists 1%nat. split; [|lia].
       replace (lenN pre + lenN [192; 12]) with (lenN pre + 2) by reflexivity.
-      apply (na_ptr true buf 0 (lenN pre) 192 12 (rs_owner r) qe).
+      apply (na_ptr buf 0 (lenN pre) 192 12 (rs_owner r) qe).
       + eapply nthN_at; [exact Hbuf'|reflexivity].
       + reflexivity.
       + apply (nthN_at buf (pre ++ [192]) 12 (be16 (rs_type r) ++ be16 (rs_class r) ++ be32 (rs_ttl r) ++
                         be16 (lenN (enc_rdata r)) ++ enc_rdata r ++ post)).
         * rewrite Hbuf'. rewrite <- app_assoc. reflexivity.
         * rewrite lenN_app. reflexivity.
-      + intros _. rewrite Heq. exact Hne.
       + rewrite Heq. exact Hq.
     - exists 0%nat. split; [|lia]. apply (name_at_enc_name _ _ pre _ Hwf Hbuf'). }
   destruct Hname as (d & Hn & Hd).
@@ -771,22 +868,6 @@ Proof.
 Qed.
 
 (* ================= Part D: a packed query decodes back to itself ================= *)
-Definition nz (c : N) : bool := negb (c =? 0).
-
-Lemma cstr_nz s : forallb nz (cstr s) = true.
-Proof. unfold cstr. apply (span_all nz s). Qed.
-
-Lemma cstr_id s : forallb nz s = true -> cstr s = s.
-Proof.
-  unfold cstr, nz. induction s as [|c r IH]; intros H; [reflexivity|].
-  cbn [forallb] in H. apply andb_prop in H as [Hc Hr].
-  cbn [span]. rewrite Hc. specialize (IH Hr).
-  destruct (span (fun c0 : N => negb (c0 =? 0)) r) as [a b] eqn:E. cbn [fst] in *. rewrite IH. reflexivity.
-Qed.
-
-Lemma forallb_app' {A} (p : A -> bool) a b : forallb p (a ++ b) = forallb p a && forallb p b.
-Proof. induction a as [|x a IH]; cbn [app forallb]; [reflexivity|]. rewrite IH, andb_assoc. reflexivity. Qed.
-
 (* every token is non-empty and made of non-NUL octets (when the string is) *)
 Lemma tokens_from_ok : forall s cur,
   forallb nz cur = true -> forallb nz s = true ->
@@ -857,14 +938,6 @@ Proof.
   split; constructor; try assumption.
   - rewrite lenN_takeN. unfold dns_MAXLABELSZ. lia.
   - apply forallb_takeN. exact H2.
-Qed.
-
-Lemma join_dots_nz labels : Forall (fun t => forallb nz t = true) labels -> forallb nz (join_dots labels) = true.
-Proof.
-  induction 1 as [|l r Hl Hr IH]; [reflexivity|].
-  destruct r as [|l2 r]; [exact Hl|].
-  change (join_dots (l :: l2 :: r)) with (l ++ [46] ++ join_dots (l2 :: r)).
-  rewrite !forallb_app', Hl, IH. reflexivity.
 Qed.
 
 (* the labels a host name is packed as: strtok tokens, each cut to 63 octets *)
